@@ -9,8 +9,8 @@
    No theorem below has a bound on the length of the history, on the schema (except where wf_schema is written) or on
    the values assigned (PLACEHOLDER, None, ill-typed and out-of-range values included). *)
 From BP Require Import Base.Prelude Model.Types Model.Object Model.Eq Model.Encode Model.Decode.
-From BP Require Import Model.History Model.C07Ops Model.C07Step Model.WellFormed.
-From BP Require Import Proofs.C07InvP Proofs.C07LoadP Proofs.C07HistP.
+From BP Require Import Model.History Model.C07Ops Model.C07Step Model.C07Wire Model.WellFormed.
+From BP Require Import Proofs.C07InvP Proofs.C07LoadP Proofs.C07HistP Proofs.C07WireP Proofs.C07ParseP Proofs.C07EncP Proofs.C07ObsP.
 
 (* ---- the invariant: initial states ---- *)
 Theorem C07_inv_init_new : forall sc c, Inv sc (new sc c).
@@ -107,6 +107,66 @@ Theorem C07_parse_fold : forall sc o bs o',
 Proof. intros sc o bs o' H. apply parse_into_selections, InvS_of_Inv, H. Qed.
 Print Assumptions C07_parse_fold.
 
+(* ---- parse(), in terms of the records a schema-less reader sees (Model/C07Wire.v [records]):
+        the selections after parse() are a fold over those records ---- *)
+Theorem C07_parse_records : forall sc o bs rs o',
+  Inv sc o -> records bs = Some rs -> parse_into sc o bs = Ok o' ->
+  ocur o' = fold_left (sel_rec (get_class sc (ocls o))) rs (ocur o).
+Proof. exact parse_records. Qed.
+Print Assumptions C07_parse_records.
+
+(* ... so the member of the LAST record that belongs to a member of g (any order, anything interleaved:
+   rs1 and rs2 are arbitrary) is the selected one afterwards, and the others are hidden *)
+Theorem C07_parse_last : forall sc o bs o' rs1 wt rs2 i f g,
+  wf_schema sc = true -> Inv sc o ->
+  nth_error (cfs sc o) i = Some f -> fgroup f = Some g -> wire_type_fits f wt = true ->
+  records bs = Some (rs1 ++ (fnum f, wt) :: rs2) ->
+  (forall r, In r rs2 -> ~ hits (get_class sc (ocls o)) g r) ->
+  parse_into sc o bs = Ok o' ->
+  which_one_of o' g = Some i /\
+  (exists v, read sc o' i = Ok v) /\
+  (forall j, j <> i -> member sc (ocls o) g j -> read sc o' j = Err EAttribute) /\
+  Inv sc o'.
+Proof. exact parse_last_wf. Qed.
+Print Assumptions C07_parse_last.
+
+(* ... and a group none of whose members occurs in the input keeps its selection *)
+Theorem C07_parse_untouched : forall sc o bs o' rs g,
+  Inv sc o -> records bs = Some rs ->
+  (forall r, In r rs -> ~ hits (get_class sc (ocls o)) g r) ->
+  parse_into sc o bs = Ok o' ->
+  which_one_of o' g = which_one_of o g.
+Proof. exact parse_untouched. Qed.
+Print Assumptions C07_parse_untouched.
+
+(* ---- observable exclusivity of the encoding: bytes(m) = body ++ unknown bytes, and among the records of
+        body (schema-less reader) the field numbers of the members of g are: the selected member's number,
+        present even when the member holds its default value, and no other member's; none at all when the
+        group selects nothing.  Side condition: the selected member holds a value (not None, not a list, not a
+        dict — no oneof member is optional, repeated or a map; C07_observable_needs_value shows it is needed). ---- *)
+Theorem C07_observable : forall sc o bs,
+  wf_schema sc = true -> Inv sc o -> selected_values_ok sc o -> enc_obj sc o = Ok bs ->
+  exists body rs,
+    bs = body ++ ounk o /\ records body = Some rs /\
+    forall g, (g < cngroups (get_class sc (ocls o)))%nat ->
+      match which_one_of o g with
+      | Some i =>
+          exists f, nth_error (cfs sc o) i = Some f /\ In (fnum f) (numbers rs) /\
+                    forall j f', j <> i -> nth_error (cfs sc o) j = Some f' -> fgroup f' = Some g ->
+                                 ~ In (fnum f') (numbers rs)
+      | None =>
+          forall j f', nth_error (cfs sc o) j = Some f' -> fgroup f' = Some g -> ~ In (fnum f') (numbers rs)
+      end.
+Proof. exact observable. Qed.
+Print Assumptions C07_observable.
+
+(* every chunk dump() writes for a field is a sequence of records of that field's number — whatever the value *)
+Theorem C07_field_chunk : forall enc sc f sel v chunk,
+  1 <= fnum f -> emit_field enc sc f sel v = Ok chunk ->
+  exists rs, records chunk = Some rs /\ Forall (fun r => fst r = fnum f) rs.
+Proof. exact field_chunk. Qed.
+Print Assumptions C07_field_chunk.
+
 (* ---- non-vacuity ---- *)
 Definition ex_sc : schema :=
   mkS (builtin_classes ++
@@ -155,3 +215,29 @@ Example C07_ex_constructor_two_members :
   oraw o = [PInt 5; PStr [x78]; PPlaceholder; PPlaceholder; PPlaceholder; PPlaceholder] /\
   which_one_of o 0 = Some 1%nat /\ read ex_sc o 0 = Err EAttribute /\ enc_obj ex_sc o = Ok [x12; x01; x78].
 Proof. vm_compute. repeat split. Qed.
+
+(* wire-level examples on the same schema: a = 1, c = Leaf(), b = "x" in one input: b (the last) wins *)
+Example C07_ex_parse_last :
+  records [x08; x01; x1a; x00; x12; x01; x78; x28; x00] = Some [(1, 0); (3, 2); (2, 2); (5, 0)] /\
+  match parse_into ex_sc (new ex_sc 11) [x08; x01; x1a; x00; x12; x01; x78; x28; x00] with
+  | Ok o => which_one_of o 0 = Some 1%nat /\ which_one_of o 1 = Some 4%nat /\ read ex_sc o 0 = Err EAttribute
+  | Err _ => False
+  end.
+Proof. vm_compute. repeat split. Qed.
+
+(* the selected member is on the wire with its default value, the hidden constructor loser is not *)
+Example C07_ex_observable :
+  let o := setattr ex_sc (construct ex_sc 11 [(0%nat, PInt 5); (1%nat, PStr [x78]); (3%nat, PInt 9)]) 4 (PBool false) in
+  enc_obj ex_sc o = Ok [x12; x01; x78; x20; x09; x28; x00] /\
+  records [x12; x01; x78; x20; x09; x28; x00] = Some [(2, 2); (4, 0); (5, 0)].
+Proof. vm_compute. repeat split. Qed.
+
+(* the side condition of C07_observable is needed: a member assigned None is selected and emits nothing *)
+Example C07_observable_needs_value :
+  let o := setattr ex_sc (new ex_sc 11) 0 PNone in
+  Inv ex_sc o /\ which_one_of o 0 = Some 0%nat /\ enc_obj ex_sc o = Ok [] /\ ~ selected_values_ok ex_sc o.
+Proof.
+  split; [apply inv_step with (o := new ex_sc 11) (p := OSet [] 0 PNone) (x := ONone); [apply inv_new | reflexivity]|].
+  split; [reflexivity|]. split; [reflexivity|].
+  intros H. apply (H 0%nat 0%nat). reflexivity.
+Qed.
